@@ -763,8 +763,7 @@ class Probability(Expression):
         return Probability(distribution)
 
     def _get_key(self):  # type:ignore
-        # TODO incorporate more information from children and parents
-        return 0, self.children[0].name
+        return 0, self.children[0].name, _distribution_key(self.distribution)
 
     def to_text(self) -> str:
         """Output this probability in the internal string format."""
@@ -1211,7 +1210,7 @@ class Sum(Expression):
         return self
 
     def _get_key(self):  # type:ignore
-        return 1, *self.expression._get_key()  # type:ignore
+        return 1, self.expression._get_key(), tuple(sorted(r.name for r in self.ranges))
 
     def _get_sorted_ranges(self) -> Sequence[Variable]:
         return sorted(self.ranges, key=attrgetter("name"))
@@ -1530,7 +1529,13 @@ class QFactor(Expression):
         return functools.partial(cls.safe, codomain=codomain)
 
     def _get_key(self):  # type:ignore
-        return -5, min(v.name for v in self.domain), min(v.name for v in self.codomain)
+        return (
+            -5,
+            min(v.name for v in self.domain),
+            min(v.name for v in self.codomain),
+            tuple(sorted(_variable_key(v) for v in self.domain)),
+            tuple(sorted(_variable_key(v) for v in self.codomain)),
+        )
 
     def _sorted_codomain(self) -> list[Variable]:
         return sorted(self.codomain, key=attrgetter("name"))
@@ -1586,6 +1591,24 @@ Pi1, Pi2, Pi3, Pi4, Pi5, Pi6 = (Variable(f"π{i}") for i in range(1, 7))
 
 def _sort_interventions(interventions: Iterable[Intervention]) -> tuple[Intervention, ...]:
     return tuple(sorted(interventions, key=lambda i: (i.name, i.star)))
+
+
+def _variable_key(variable: Variable) -> tuple[Any, ...]:
+    star = -1 if variable.star is None else int(variable.star)
+    if isinstance(variable, CounterfactualVariable):
+        interventions = tuple(
+            (i.name, int(bool(i.star))) for i in _sort_interventions(variable.interventions)
+        )
+    else:
+        interventions = ()
+    return variable.name, star, interventions
+
+
+def _distribution_key(distribution: Distribution) -> tuple[Any, ...]:
+    return (
+        tuple(_variable_key(v) for v in distribution.children),
+        tuple(_variable_key(v) for v in distribution.parents),
+    )
 
 
 def _variable_sort_key(variable: Variable) -> tuple[str, str]:
@@ -1702,7 +1725,7 @@ class PopulationProbability(Probability):
         return PopulationProbability(population=self.population, distribution=distribution)
 
     def _get_key(self):  # type:ignore
-        return -1, self.population, self.children[0].name
+        return -1, self.population, self.children[0].name, _distribution_key(self.distribution)
 
     def to_y0(self) -> str:
         """Output this probability instance as y0 internal DSL code."""
